@@ -54,6 +54,10 @@ def stepW (w : World) (j : Json) : Except String World := do
   | "stashPush" => pure (w.rop .stashPush)
   | "stashPop" => pure (w.rop (.stashPop (← natsOf (← j.getObjVal? "ys"))))
   | "aborted" => pure (w.rop .aborted)
+  | "typed" =>
+    -- lines typed while the operation is stopped at a conflict (s = 0: a person)
+    let s ← getNatField j "s"
+    pure (w.rop (.typed (if s = 0 then none else some s) (← natsOf (← j.getObjVal? "ids"))))
   | "switchCarry" =>
     -- the working tree goes along: the state under the new name is the carried one
     let name ← (← j.getObjVal? "name").getStr?
@@ -76,7 +80,11 @@ def stepW (w : World) (j : Json) : Except String World := do
   | "cherryPick" =>
     let src := w.get (← (← j.getObjVal? "src").getStr?)
     let news ← contentsOf (← j.getObjVal? "news")
-    pure (w.rop (.replay 0 [] (some (src.log, src.notes)) news))
+    -- `skip` newest commits of the source branch come after the last picked commit
+    let skip := match getNatField j "skip" with
+      | .ok n => n
+      | .error _ => 0
+    pure (w.rop (.replay 0 [] (some (src.log.drop skip, src.notes.drop skip)) news))
   | "squash" =>
     let src := w.get (← (← j.getObjVal? "src").getStr?)
     pure (w.rop (.squash src.log src.notes (← natsOf (← j.getObjVal? "ys"))))
